@@ -157,6 +157,26 @@ Definition inner (p : plat) (meth site : string) (c : cond) : option res :=
 Definition method_outcome (p : plat) (meth site : string) (c : cond) : res :=
   match inner p meth site c with Some r => r | None => wrap p c end.
 
+(* ------------------------------------------------------------------ every native call of the method fails *)
+(* the really gone / really off-limits process: whatever the method asks the OS -- cext calls,
+   os.readlink / os.listdir / os.stat / os.waitpid -- ends with the same error.  A second route
+   cannot help then; only handlers that decide without another call do (site = the first call made). *)
+Definition inner_nocall (p : plat) (meth site : string) (c : cond) : option res :=
+  let e := c_err c in
+  let s := c_state c in
+  match p with
+  | NetBSD =>
+      if g_netbsd_cmdline meth site && is_einval e then
+        Some (if zombie s then RZombie else if negb (pid_exists NetBSD c) then RNoSuch else RVal)
+      else if g_netbsd_exe meth site then wrap_procfs c
+      else None
+  | AIX => if g_aix_io meth site && negb (pid_exists AIX c) then Some RNoSuch else None
+  | Windows => if is_partial e && g_win_partial meth then Some RDenied else None
+  | _ => None
+  end.
+Definition all_outcome (p : plat) (meth site : string) (c : cond) : res :=
+  match inner_nocall p meth site c with Some r => r | None => wrap p c end.
+
 (* ------------------------------------------------------------------ two native calls in one method *)
 (* (first call fails with e1, the second route's call fails with e2); the pairs the code has:
    Windows "fast call denied -> proc_info", Windows cmdline "PEB denied -> non-PEB query",
@@ -232,7 +252,8 @@ Record urow := {
   u_shape : shape;
   u_type : string;                         (* namedtuple type name, "" for scalars *)
   u_fields : list (string * src);          (* field name ("" for a scalar) and source *)
-  u_deps : list (string * Z) }.            (* native slots whose value influences the result *)
+  u_deps : list (string * Z);              (* native slots whose value influences the result *)
+  u_falsy_bad : list (string * Z) }.       (* (field, v) with v in {0, -1}: the slot holding v did NOT arrive as v in that field *)
 
 Definition records := list (string * list Z).
 Fixpoint lookup_rec (fn : string) (rs : records) : option (list Z) :=
